@@ -1,7 +1,8 @@
 --------------------------- MODULE Trace_HttpRedirect ---------------------------
 (* V binding for HttpRedirect.tla: recorded calls of Http::request against random redirect sites, many calls in flight
    at once (each call is logged as one block when it returns).
-   call    : the application calls request() on a site (site, method, followRedirects, body length and hash)       -> StartWith
+   call    : the application calls request() on a site (site, method, followRedirects, body length and hash; ms = the wall
+             time of the whole call: after a slow call - see Slow below - its visits, hops and result are not constrained)  -> StartWith
    visit   : the handler of a node observed a request (node, method, body length and hash, whether a query arrived) -> Request
    hop     : between two visits the client must have decided to follow (logged by the recorder before every visit but
              the first, with the method of the next request)                                                      -> RedirectTo
@@ -12,10 +13,20 @@
 EXTENDS HttpRedirect, IOUtils
 
 T == ndJsonDeserialize(IOEnv.TRACE)
-VARIABLES l, bh
-tvars == <<vars, l, bh>>
+VARIABLES l, bh, slow
+tvars == <<vars, l, bh, slow>>
 
-TInit == Init /\ l = 1 /\ bh = <<>>
+TInit == Init /\ l = 1 /\ bh = <<>> /\ slow = FALSE
+
+(* Wall time.  Every exchange-type event carries ms, the wall milliseconds the exchange took on the recording machine.  The
+   library ends exchanges by itself after fixed times (HttpServer drops a connection 10 s after accepting it and waits 5 s
+   for data; HttpMessage::readBody hands over a truncated body after 10 s without input): design decisions of asl that this
+   property does not forbid and that fire on an overloaded machine.  An event with ms >= SlowMs (far above a normal exchange
+   of a few ms, well below those limits) is therefore consumed without constraining what was observed; everything else is
+   checked exactly as before.  checks/C10.py bounds the number of slow events per recording (a server that does not answer
+   is still reported).                                                                                                    *)
+SlowMs == 4000
+Slow(e) == "ms" \in DOMAIN e /\ e.ms >= SlowMs
 
 NodeOf(n) == [code |-> n.code, to |-> n.to, form |-> n.form, q |-> n.q]
 SiteOf(e) == [i \in 1..Len(e.site) |-> NodeOf(e.site[i])]
@@ -26,20 +37,21 @@ Step ==
   /\ LET e == T[l] IN
      \/ /\ e.e = "call"
         /\ site' = SiteOf(e) /\ call' = CallOf(e) /\ at' = 1 /\ meth' = e.call.method /\ nreq' = 0 /\ pending' = FALSE
-        /\ visits' = <<>> /\ out' = NoOut /\ bh' = e.bh
-     \/ /\ e.e = "visit" /\ Request
+        /\ visits' = <<>> /\ out' = NoOut /\ bh' = e.bh /\ slow' = Slow(e)
+     \/ /\ e.e \in {"visit", "hop", "result"} /\ slow /\ UNCHANGED <<vars, bh, slow>>
+     \/ /\ e.e = "visit" /\ ~slow /\ Request
         /\ visits'[Len(visits')] = [node |-> e.node, method |-> e.method, blen |-> e.blen, q |-> e.q]
         /\ ~e.qbad
         /\ (e.blen > 0 => e.bh = bh)
-        /\ UNCHANGED bh
-     \/ /\ e.e = "hop" /\ RedirectTo(e.method) /\ UNCHANGED bh
-     \/ /\ e.e = "result" /\ (Deliver \/ GiveUp \/ Lost)
+        /\ UNCHANGED <<bh, slow>>
+     \/ /\ e.e = "hop" /\ ~slow /\ RedirectTo(e.method) /\ UNCHANGED <<bh, slow>>
+     \/ /\ e.e = "result" /\ ~slow /\ (Deliver \/ GiveUp \/ Lost)
         /\ IF out'.any THEN TRUE
            ELSE IF out'.gaveup THEN e.code = 421
            ELSE /\ e.code = out'.code /\ e.node = out'.node
                 /\ LET n == site[out'.node] IN
                    e.loc.form = n.form /\ (n.form # "none" => (e.loc.to = n.to /\ e.loc.q = n.q))
-        /\ UNCHANGED bh
+        /\ UNCHANGED <<bh, slow>>
 
 TraceSpec == TInit /\ [][Step]_tvars
 TraceAccepted == TLCGet("stats").diameter - 1 = Len(T)
